@@ -382,7 +382,22 @@ impl WorldB {
             addrs.push(addr_v4(10, 9, 9, 1 + k as u8, 5990 + k as u16));
         }
         if variant == 3 {
-            addrs.push(addr_v4(10, 7, 7, 7, 5000));
+            // a host the server is not: an unrelated one, or a look-alike of its first public address (other port, neighbouring
+            // host, and the IPv4-compatible `::a.b.c.d` and IPv4-mapped `::ffff:a.b.c.d` spellings, which are different addresses)
+            let look = match (tag % 5, self.public[0]) {
+                (1, p) => SocketAddr::new(p.ip(), p.port().wrapping_add(1)),
+                (2, SocketAddr::V4(a)) => {
+                    let o = a.ip().octets();
+                    SocketAddr::new(IpAddr::V6(Ipv6Addr::new(0, 0, 0, 0, 0, 0, ((o[0] as u16) << 8) | o[1] as u16, ((o[2] as u16) << 8) | o[3] as u16)), a.port())
+                }
+                (3, SocketAddr::V4(a)) => SocketAddr::new(IpAddr::V6(a.ip().to_ipv6_mapped()), a.port()),
+                (4, SocketAddr::V4(a)) => {
+                    let o = a.ip().octets();
+                    SocketAddr::new(IpAddr::V4(Ipv4Addr::new(o[0], o[1], o[2], o[3] ^ 1)), a.port())
+                }
+                _ => addr_v4(10, 7, 7, 7, 5000),
+            };
+            addrs.push(look);
         } else {
             // the live public addresses, in order (or just one of them), then padding with further foreign hosts up to naddr
             if self.next_token_subset && self.public.len() > 1 {
